@@ -341,15 +341,40 @@ class Gen:
 
 
 def _compatible(branches):
+    """Addresses shared by two branches must hold equally typed, un-indexed values, and no
+    branch may own a value at an address beneath which another branch owns sub-addresses.
+    (Outside these bounds the library's choice-map merging raises: mask flags of different
+    shapes cannot be combined, a Choice cannot be indexed or merged with a sub-map.)"""
     seen = {}
-    for b in branches:
+    owner = {}
+    for bi, b in enumerate(branches):
         for site in b.sites():
             key = site.static_path
             sig = (site.idx_dims, site.dist.vshape, site.dist.d.vkind)
-            if key in seen and seen[key] != sig:
-                return False
+            if key in seen and owner[key] != bi:
+                if seen[key] != sig or site.idx_dims != ():
+                    return False
             seen.setdefault(key, sig)
-    return True
+            owner.setdefault(key, bi)
+    paths = list(seen)
+    for a in paths:
+        for b in paths:
+            if a != b and b[: len(a)] == a:
+                return False
+    # every branch receives the whole constraint: a vector-combinator branch indexes all of
+    # its leaves (`constraint(idx)`), which raises on a sibling branch's scalar leaves.  So
+    # either all branches start with an index level or none does.
+    lead = {_leading_index(b) for b in branches}
+    return len(lead) <= 1
+
+
+def _leading_index(node):
+    """Does the node index its constraint first (vector combinator, possibly wrapped)?"""
+    if isinstance(node, (Vmap, Repeat, Scan, Accumulate, Iterate, MaskedIterateFinal)):
+        return True
+    if isinstance(node, (Dimap, Mask)):
+        return _leading_index(node.children[0])
+    return False
 
 
 def gen_program(rng, cfg: Cfg):
